@@ -101,6 +101,21 @@ func (f changeFinder) unchanged(from, to *value) {
 	to.Comments = from.Comments
 }
 
+// identical records that the two subtrees are the same: every node of the
+// new one has the comments of its counterpart.
+func (f changeFinder) identical(from, to *value) {
+	if from == nil || to == nil || from.Type() != to.Type() {
+		return
+	}
+	to.Comments = from.Comments
+	f.identical(from.Elem, to.Elem)
+	if len(from.Children) == len(to.Children) {
+		for i := range from.Children {
+			f.identical(from.Children[i], to.Children[i])
+		}
+	}
+}
+
 func (f changeFinder) changed() {
 	f.cl.Changed(f.Pos, f.End)
 }
@@ -131,6 +146,10 @@ func (f changeFinder) Walk(from, to *value) (equal bool) {
 		f.changed()
 		return false
 	}
+
+	// A node that was modified is still the node its comments belong to:
+	// the regions of its neighbours stop at them for later changes too.
+	to.Comments = from.Comments
 
 	switch from.Type() {
 	case goast.ObjectPtrType:
@@ -324,7 +343,7 @@ func (f changeFinder) walkSlice(from, to *value) bool {
 	for _, e := range es {
 		switch e {
 		case diff.Identity:
-			f.unchanged(from.Children[i], to.Children[j])
+			f.identical(from.Children[i], to.Children[j])
 			i++
 			j++
 
